@@ -56,3 +56,22 @@ package common
 //@   at return 4 assert err == nil && len(fields) == 6
 //@   loop 1
 //@     invariant len(fields) == 6
+
+// C17 (a value that does not fit its key's type is an error): every integer kind is parsed with the bit size of
+// ITS kind - an out-of-range number fails to parse instead of being truncated by the reflect setter - in Go
+// literal syntax (base 0), from the text as written.
+//@ func FuzzyDecode
+//@   anchorsonly
+//@   nonilcheck
+//@   dyncalls noeffect
+//@   modifies *
+//@   at call strconv.ParseInt#1 assert a0 == val && a1 == 0 && a2 == 64
+//@   at call strconv.ParseInt#2 assert a0 == val && a1 == 0 && a2 == 8
+//@   at call strconv.ParseInt#3 assert a0 == val && a1 == 0 && a2 == 16
+//@   at call strconv.ParseInt#4 assert a0 == val && a1 == 0 && a2 == 32
+//@   at call strconv.ParseInt#5 assert a0 == val && a1 == 0 && a2 == 64
+//@   at call strconv.ParseUint#1 assert a0 == val && a1 == 0 && a2 == 64
+//@   at call strconv.ParseUint#2 assert a0 == val && a1 == 0 && a2 == 8
+//@   at call strconv.ParseUint#3 assert a0 == val && a1 == 0 && a2 == 16
+//@   at call strconv.ParseUint#4 assert a0 == val && a1 == 0 && a2 == 32
+//@   at call strconv.ParseUint#5 assert a0 == val && a1 == 0 && a2 == 64
